@@ -31,9 +31,37 @@ def generalise(path):
     return re.sub(r"\[\-?\d+\]", "[]", path)
 
 
+class _Items(list):
+    """the extraction, plus containment probes for shapes (points with the verdict the shape gave BEFORE the motion)"""
+    probes = ()
+
+
+def _probes(shape):
+    import numpy as np
+    n = type(shape).__name__
+    if n not in ("Rectangle", "Circle", "Polygon"):
+        return ()
+    if n == "Polygon":
+        v = np.asarray(shape.vertices, dtype=float)[:-1, :2]
+        pts = [v.mean(axis=0), (v[0] + v[1] + v[2]) / 3.0, v.mean(axis=0) + np.array([1e3, 1e3])]
+    else:
+        c = np.asarray(shape.center, dtype=float)
+        ext = float(getattr(shape, "radius", 0) or max(shape.length, shape.width))
+        pts = [c, c + np.array([10.0 * ext + 1.0, 0.0])]
+    out = []
+    for p in pts:
+        try:
+            out.append(((float(p[0]), float(p[1])), bool(shape.contains_point(p))))
+        except Exception:  # noqa
+            pass
+    return tuple(out)
+
+
 def snap(self):
     try:
-        return spatial.extract(self)
+        it = _Items(spatial.extract(self))
+        it.probes = _probes(self)
+        return it
     except Exception as e:  # noqa
         return e
 
@@ -58,6 +86,24 @@ def post(self, translation, angle, result, OLD):
             seen.add(key)
             S.violation(key, "t=%s a=%r: %s expected %s got %s" % (t, angle, path, e, g),
                         {"class": cls, "translation": t, "angle": float(angle), "path": path})
+        # relative configuration: a point that was inside (outside) the shape is, moved along, inside (outside) the moved
+        # shape (probes are the centroid-like interior points and a far point: no boundary cases)
+        res = result if result is not None else self
+        for p0, inside in getattr(OLD.items, "probes", ()):
+            q = spatial.move_point(p0, t, float(angle))
+            import numpy as _np
+            S.counter("contract.translate_rotate.containment-probe")
+            try:
+                now = bool(res.contains_point(_np.array(q)))
+            except Exception as e:  # noqa
+                S.violation("C05/%s.translate_rotate/contains_point-raises-%s-afterwards" % (cls, type(e).__name__),
+                            repr(e)[:200], {"class": cls, "translation": t, "angle": float(angle)})
+                continue
+            if now != inside:
+                S.violation("C05/%s.translate_rotate/containment-not-preserved/%s" % (cls, angle_class(angle)),
+                            "t=%s a=%r: point %s was %s the shape, its image %s is %s the moved shape" % (
+                                t, angle, p0, "inside" if inside else "outside", q, "inside" if now else "outside"),
+                            {"class": cls, "translation": t, "angle": float(angle)})
         if not bad:
             i0, i1 = spatial.rigid_invariants(OLD.items), spatial.rigid_invariants(after)
             sc = 1 + abs(t[0]) + abs(t[1])
